@@ -389,6 +389,52 @@ def r7(ctx, prog, eng):
     ctx.ob('C10.R7', '%s|cursor-by-accepted' % al.name, okc, 'appendLockless: ptr += accepted and remain -= accepted for the value Buffer::append returned', where=al.loc(c['i']))
 
 
+def r8(ctx, prog, eng, backend):
+    ctx.rule('C10.R8', 'A4 no lost stop request + A5 re-initialisation: the backend never blocks on full_buffers_cv_ without having tested stop_signal_ under the same lock '
+             '(predicate wait, or a dominating test in the critical section) — cleanup() raises the flag and notifies once, possibly while the backend is busy; and every '
+             'counter initialize() builds up relative to its old value is reset by cleanup() (the same object is initialised again by the log sinks)', floor=2)
+    waits = [st for st in backend.stmts if st and q.is_call(st, cls='std::condition_variable') and st.get('fn') in locks.CV_WAITS and q.obj_field_is(backend, st, 'Impl::full_buffers_cv_')]
+    if not waits:
+        raise AnalysisBroken('threadFunc: wait on full_buffers_cv_ not found')
+    for w in waits:
+        ok = False
+        why = 'no test of stop_signal_'
+        # predicate overload whose lambda reads stop_signal_
+        for a in w.get('args', ())[1:]:
+            for x in backend.walk(a):
+                if backend.stmts[x]['k'] == 'LambdaExpr':
+                    lf = prog.lambda_func(backend, backend.stmts[x])
+                    if lf and any(st and st['k'] == 'MemberExpr' and st.get('q', '').endswith('Impl::stop_signal_') for st in lf.stmts):
+                        ok, why = True, 'predicate wait whose predicate reads stop_signal_'
+        if not ok:
+            wp = q.pt(backend, w)
+            for cond, k, b in backend.cfg.controlling_branches(wp):
+                if any(x.endswith('Impl::stop_signal_') for x in q.subtree_fields(backend, cond)) and q.edge_holds(backend, cond, k, 'stop_signal_', '==', '0'):
+                    okr, bad = q.region_atomic(eng, backend, frozenset(), backend.cfg.point_of(cond), wp, IMPL + '::full_buffers_mutex_')
+                    if okr:
+                        ok, why = True, 'stop_signal_ tested under full_buffers_mutex_ right before the wait'
+        ctx.ob('C10.R8', '%s|stop-tested-before-wait@%s' % (backend.name, backend.loc(w['i']).split(':')[-1]), ok, why if ok else
+               'the backend can block on full_buffers_cv_ for a whole flush interval although stop_signal_ is already set (the single notify_all of cleanup() was issued while '
+               'it was not waiting): cleanup()/the destructor hang for up to cfg.interval', where=backend.loc(w['i']))
+    ini, cl = prog.fn1(IMPL + '::initialize'), prog.fn1(IMPL + '::cleanup')
+    for st in ini.stmts:
+        if not st:
+            continue
+        tgt = st['ch'][0] if (st['k'] == 'CompoundAssignOperator' and st.get('op') in ('+=', '-=')) or (st['k'] == 'UnaryOperator' and st.get('op') in ('++', '--')) else None
+        fq = ini.field_of(tgt) if tgt is not None else None
+        if not fq or not fq.startswith(IMPL + '::'):
+            continue
+        short = fq.split('::')[-1]
+        first = [a for a, rhs in q.assigns(ini, short) if a.get('op') == '=' and ini.cfg.dominates(q.pt(ini, a), q.pt(ini, st))]
+        reset = [a for a, rhs in q.assigns(cl, short) if a.get('op') == '=' and not cl.cfg.exists_path(cl.cfg.entry_point(), 'exit', avoid=[q.pt(cl, a)] + [q.pt(cl, r) for r in q.returns(cl) if
+                 any(x.endswith('inited_') for c_, br in q.lexical_guards(cl, r['i']) for x in q.subtree_fields(cl, c_))])]
+        ctx.ob('C10.R8', '%s|%s-restarts' % (ini.name, short), bool(first) or bool(reset),
+               '%s is %s' % (short, 'given an absolute value in initialize() first' if first else 'reset by cleanup()') if first or reset else
+               'initialize() builds %s up relative to its previous value and cleanup() never resets it: the second initialize() of the same object starts from the old count '
+               '(producers then wait for buffers that do not exist)' % short, where=ini.loc(st['i']))
+    ctx.ob('C10.R8', '%s|relative-counters' % ini.name, True, 'relative updates in initialize() examined')
+
+
 def run(ctx):
     prog = extract('ALL' if ctx.tier == 'thorough' else SCOPE)
     eng, ctxs, backend = setup(prog)
@@ -399,4 +445,5 @@ def run(ctx):
     ctx.guard(r5, ctx, prog, eng, backend)
     ctx.guard(r6, ctx, prog, eng, ctxs)
     ctx.guard(r7, ctx, prog, eng)
+    ctx.guard(r8, ctx, prog, eng, backend)
     return prog
